@@ -515,6 +515,43 @@ def desugar_split(repo):
         fn.body = fix(fn.body)
 
 
+NUMPY_SIGNATURES = {
+    # numpy.random.Generator / RandomState draws and constructors whose
+    # leading parameters the rules read by keyword
+    'normal': ('loc', 'scale', 'size'),
+    'lognormal': ('mean', 'sigma', 'size'),
+    'uniform': ('low', 'high', 'size'),
+    'standard_normal': ('size',),
+    'default_rng': ('seed',),
+}
+
+
+def keywordise_numpy(repo):
+    """`rng.normal(0, s, shape)` -> `rng.normal(loc=0, scale=s, size=shape)`
+    for the numpy calls listed above (their signatures are fixed)."""
+    class R(ast.NodeTransformer):
+        def visit_Call(self, n):
+            self.generic_visit(n)
+            f = n.func
+            if isinstance(f, ast.Attribute) and f.attr in NUMPY_SIGNATURES \
+                    and n.args and not any(isinstance(a, ast.Starred)
+                                           for a in n.args):
+                names = NUMPY_SIGNATURES[f.attr]
+                if len(n.args) <= len(names) and not any(
+                        k.arg in names[:len(n.args)] for k in n.keywords):
+                    n.keywords = [ast.keyword(arg=names[i], value=a)
+                                  for i, a in enumerate(n.args)] + n.keywords
+                    n.args = []
+            return n
+    for c in repo.classes.values():
+        for fn in c.methods.values():
+            R().visit(fn)
+            ast.fix_missing_locations(fn)
+    for fn in getattr(repo, 'functions', {}).values():
+        R().visit(fn)
+        ast.fix_missing_locations(fn)
+
+
 def desugar_tuple_assign(repo):
     """`a, b = x, y` -> `a = x; b = y` when no target is read by a later
     value of the same statement (then the two forms are the same program)."""
@@ -655,6 +692,10 @@ def normalise(repo):
         pass
     try:
         desugar_tuple_assign(repo)
+    except Exception:
+        pass
+    try:
+        keywordise_numpy(repo)
     except Exception:
         pass
     try:
